@@ -116,13 +116,16 @@ def job_axes(T, Fc, asc, route):
     return recs
 
 
-def job_backend(asc):
-    """from_backend_params / params_from_backend: concrete dyadic backend, symbolic obs_length"""
+BACKENDS = ((1024.0, 8, 16, 2), (1024.0, 9, 4, 3))      # chan_bw=128, df=8, dt=0.25 / an odd branch count: df=28.4.., dt=0.105..
+
+
+def job_backend(asc, cfg=0):
+    """from_backend_params / params_from_backend: concrete backend, symbolic obs_length"""
     recs = []
-    sr, nb, fft, intf = 1024.0, 8, 16, 2      # chan_bw=128, df=8, dt=0.25
+    sr, nb, fft, intf = BACKENDS[cfg]
     L = Sym(z3.Real('obs_length'))
     pre = [L.t >= RV(0.25), L.t < RV(1.2)]
-    tag = f"C05:backend:{asc}"
+    tag = f"C05:backend:{asc}" + (f":cfg{cfg}" if cfg else '')
 
     def run():
         return F.Frame.from_backend_params(fchans=3, obs_length=L, sample_rate=sr, num_branches=nb, fftlength=fft,
@@ -132,7 +135,7 @@ def job_backend(asc):
     for li, leaf in enumerate(leaves):
         if leaf.kind == 'exc':
             recs.append(q(f"{tag}:leaf{li}", 'sat', detail=repr(leaf.value)))
-            recs.append(cex('C05:backend:raise', f'from_backend_params raised {leaf.value!r}', dict(fn='backend', asc=asc, obs_length=0.77), name=f"{tag}:leaf{li}"))
+            recs.append(cex('C05:backend:raise', f'from_backend_params raised {leaf.value!r}', dict(fn='backend', asc=asc, obs_length=0.77, cfg=cfg), name=f"{tag}:leaf{li}"))
             continue
         fr = leaf.value
         dfv, dtv = sr / nb / fft, intf / (sr / nb / fft)
@@ -145,7 +148,7 @@ def job_backend(asc):
         recs.append(q(f"{tag}:leaf{li}", r, tchans=str(T)))
         if r == 'sat':
             recs.append(cex('C05:backend', 'from_backend_params geometry differs from sample_rate/num_branches/fftlength/int_factor',
-                            dict(fn='backend', asc=asc, obs_length=core.model_float(m, L)), name=f"{tag}:leaf{li}"))
+                            dict(fn='backend', asc=asc, obs_length=core.model_float(m, L), cfg=cfg), name=f"{tag}:leaf{li}"))
     r, _ = core.check(pre + [z3.Not(z3.Or(*[l.cond() for l in leaves]))], timeout_ms=30000)
     recs.append(q(f"{tag}:split-complete", r, leaves=len(leaves)))
     # the parameter mapping handed to a caller is the caller's: editing it does not reach later frames
@@ -530,9 +533,12 @@ def replay_fp_rt(p):
 def replay_backend(p):
     import setigen as stg
     L = p['obs_length']
-    fr = stg.Frame.from_backend_params(fchans=3, obs_length=L, sample_rate=1024.0, num_branches=8, fftlength=16, int_factor=2, fch1=4096.0, ascending=p['asc'])
+    sr, nb, fftl, intf = BACKENDS[p.get('cfg', 0)]
+    fr = stg.Frame.from_backend_params(fchans=3, obs_length=L, sample_rate=sr, num_branches=nb, fftlength=fftl, int_factor=intf, fch1=4096.0, ascending=p['asc'])
     T = fr.tchans
-    bad = not (fr.df == 8.0 and fr.dt == 0.25 and T * 0.25 <= L < (T + 1) * 0.25 and len(fr.ts) == T)
+    dfv = sr / nb / fftl
+    dtv = intf / dfv
+    bad = not (fr.df == dfv and fr.dt == dtv and T * dtv <= L < (T + 1) * dtv and len(fr.ts) == T)
     hist = backend_params_history(stg.frame)
     return bad or bool(hist), f"obs_length={L!r}: tchans={T}, df={fr.df}, dt={fr.dt}" + (f"; {hist}" if hist else '')
 
@@ -598,6 +604,7 @@ def main():
                 jobs.append(('job_index', (geom, T, Fc, asc)))
     for asc in (False, True):
         jobs.append(('job_backend', (asc,)))
+        jobs.append(('job_backend', (asc, 1)))
         jobs.append(('job_fp_roundtrip', (asc,)))
     jobs.append(('job_units', ()))
     for asc in (False, True):
